@@ -105,6 +105,7 @@ func ruleC01(c *Ctx) {
 	c.Decided = []string{
 		"FIELDMAP-R: in genbank.Parse's keyword dispatch and the reference sub-dispatch every keyword stores into the field the format assigns (LOCUS, DEFINITION, ACCESSION, VERSION, KEYWORDS, SOURCE/ORGANISM, REFERENCE, FEATURES, ORIGIN; AUTHORS, TITLE, JOURNAL, PUBMED, REMARK), unknown keywords go to Meta.Other[keyword]; every entry of the repo's own top-level keyword table has a case",
 		"PAIR-NEXT: every continuation-joining call receives the lines that follow the very line its head was taken from (X[i], X[i+1:])",
+		"REFHEAD: the REFERENCE number is the first token of the line split on single blanks (or white space)",
 		"WRAPPERS: Read->Parse, ReadMulti->ParseMulti, ReadFlat->ParseFlat, ReadFlatGz->gzip->ParseFlat, ParseFlat drops exactly 10 header lines then ParseMulti, ParseMulti splits after \"//\\n\" and parses each piece in order",
 		"LOSSY: no deleting/truncating string operation (payload alphabet: printable ASCII except the double quote) on the def-use path from the feature lines to Feature.Attributes values",
 		"TABLE: the ORIGIN filter deletes exactly the non-letters (letters survive in order, concatenated in line order); LOCUS topology words are matched as space-delimited tokens",
